@@ -156,7 +156,7 @@ class Gen:
             sql, sx = self.lit(ty)
             return sql, sx, ty
         if ty == "bool":
-            if self.o.get("sugar", True) and depth >= 1 and r.chance(10):
+            if self.o.get("sugar", True) and depth >= 1 and r.chance(self.o.get("sugar_chance", 10)):
                 which = r.below(3)
                 if which == 0:
                     # a [NOT] BETWEEN lo AND hi  =  a >= lo AND a <= hi  /  a < lo OR a > hi
@@ -164,6 +164,12 @@ class Gen:
                     a = self.expr(scopes, t2, depth - 1, classes, False, corr)
                     lo = self.expr(scopes, t2, 0, classes, False, corr)
                     hi = self.expr(scopes, t2, 0, classes, False, corr)
+                    # the bounds are inclusive: make the value sit exactly on a bound in half of the cases
+                    if r.chance(50):
+                        if r.chance(50):
+                            hi = a
+                        else:
+                            lo = a
                     classes.add("between")
                     if r.chance(50):
                         return "(%s BETWEEN %s AND %s)" % (a[0], lo[0], hi[0]), \
@@ -269,8 +275,12 @@ class Gen:
         t2 = r.choice(["i32", "text", "i32"])
         a = self.expr(scopes, t2, 1, classes, False)
         sub = self.select(scopes, depth - 1, want=[t2], classes=classes, plain=True)
-        if self.o.get("quantified", True) and r.chance(35):
+        if self.o.get("quantified", True) and r.chance(self.o.get("quantified_chance", 35)):
             kind = r.choice(["any", "all"])
+            if r.chance(40):
+                # ties with the extreme value of the subquery decide >= ALL / <= ALL / > ANY ...: compare a column
+                # with a subquery over the same kind of column
+                a = self.expr(scopes, t2, 0, classes, False)
             op = r.choice(["eq", "ne", "lt", "le", "gt", "ge"])
             sym = {"eq": "=", "ne": "<>", "lt": "<", "le": "<=", "gt": ">", "ge": ">="}[op]
             classes.add("in_sub")       # same decorrelation family (mark join)
